@@ -48,15 +48,32 @@ def r1_collect_error(ctx):
     ctx.touched(f)
     cfg = cfg_of(f.node)
     err_param = "schema_error" if "schema_error" in f.params else f.positional[3]
-    # first statement: eager raise of the same object
-    body = [s for s in f.node.body if not (isinstance(s, ast.Expr) and isinstance(s.value, ast.Constant))]
-    first = body[0] if body else None
-    ok = isinstance(first, ast.If) and "_lazy" in txt(first.test) and len(first.body) == 1 and isinstance(first.body[0], ast.Raise) \
-        and isinstance(first.body[0].exc, ast.Name) and first.body[0].exc.id == err_param
-    pol_ok = ok and txt(first.test).replace(" ", "") in ("notself._lazy", "notself.lazy")
+    # eager raise of the same object, reached exactly when the handler is not lazy, before any write to self
+    lazy_atom = lambda t, n: "_lazy" in t or t.endswith(".lazy")
+    raises = [s for s in function_stmts(f) if isinstance(s, ast.Raise)]
+    same = [s for s in raises if isinstance(s.exc, ast.Name) and s.exc.id == err_param]
+    first = None
+    ok = pol_ok = False
+    for s in same:
+        names_, sat = path_condition(cfg, cfg.node_of(s).id, keep=lazy_atom)
+        if len(names_) == 1 and sat == frozenset({(False,)}):
+            ok = pol_ok = True
+            first = s
+    writes_self = []
+    for s in function_stmts(f):
+        is_w = any(isinstance(t, (ast.Attribute, ast.Subscript)) for t in (getattr(s, "targets", None) or ([s.target] if isinstance(s, (ast.AugAssign, ast.AnnAssign)) else []))) \
+            or any(callee_last(c) in ("append", "extend", "update", "add", "insert", "setdefault", "pop", "clear") for c in calls_in(s)) if not isinstance(s, (ast.If, ast.For, ast.While, ast.Try, ast.With)) else False
+        if is_w:
+            writes_self.append(s)
+    early = []
+    for s in writes_self:
+        names_, sat = path_condition(cfg, cfg.node_of(s).id, keep=lazy_atom)
+        if not (len(names_) == 1 and sat == frozenset({(True,)})):
+            early.append(s)
+    ok = ok and not early
     ctx.ob("R1", f, "eager mode raises the given error object before any other effect", ok and pol_ok,
-           f"`if {txt(first.test)}: raise {err_param}` is the first statement" if ok and pol_ok else
-           f"first statement is `{txt(first)[:60]}`")
+           f"`raise {err_param}` is reached exactly when the handler is not lazy; every write happens only in lazy mode" if ok and pol_ok else
+           (f"a write (`{txt(early[0])[:60]}`) can happen in eager mode" if early else f"no `raise {err_param}` reached exactly under `not lazy`"))
     appends = {}
     for s in function_stmts(f):
         for c in calls_in(s):
@@ -69,15 +86,10 @@ def r1_collect_error(ctx):
             ctx.ob("R1", f, f"lazy mode appends to self.{attr}", False, "never appended: collected errors are lost")
             continue
         # skip the eager branch: start after the first statement's False edge
-        start = cfg.node_of(first)
-        starts = [b for b, lab in cfg.succ[start.id] if lab == "False"] if start is not None else [cfg.entry.id]
+        # every path from entry to the normal exit passes an append (paths ending in the eager raise never reach the exit)
         bypass = None
-        for st in starts:
-            if st in nodes:
-                continue
-            p = cfg.must_pass(st, exits, nodes, skip_labels=("exc", "fin-exc"))
-            if p is not None:
-                bypass = p
+        if cfg.entry.id not in nodes:
+            bypass = cfg.must_pass(cfg.entry.id, exits, nodes, skip_labels=("exc", "fin-exc"))
         once = len(nodes) == 1 and not any(isinstance(parent(cfg.nodes[n].ast), (ast.For, ast.While)) for n in nodes)
         ctx.ob("R1", f, f"lazy mode appends exactly once to self.{attr} on every path", bypass is None and once,
                "must-pass-through holds, single append outside loops" if bypass is None and once else
